@@ -402,6 +402,26 @@ Proof.
   unfold mcatch. destruct (tr o depth ot v s) as [s0 [a|e| | |]]; intros H; try discriminate H; try exact H.
 Qed.
 
+(* ---- `contains`: a pure count of the accepting elements, then a verdict ---- *)
+Lemma parse_contains_again o depth c mn mx v s s' w :
+  parse_contains tr o depth c mn mx v s = (s', Ok w) -> e_errors s' = e_errors s ->
+  w = v /\ forall s2, parse_contains tr o depth c mn mx v s2 = (s2, Ok v).
+Proof.
+  unfold parse_contains. intros H He.
+  apply mbind_ok in H. destruct H as (s1 & items & H1 & H). unfold lift in H1. injection H1 as <- Hit.
+  apply mbind_ok in H. destruct H as (s2' & n & H2 & H). unfold lift in H2. injection H2 as <- Hn.
+  apply mbind_ok in H. destruct H as (s3 & [] & H3 & H). injection H as <- <-.
+  split; [reflexivity|]. intros s2. unfold mbind, lift. rewrite Hit, Hn.
+  assert (Hno : forall e, handle_error o e false s = (s3, Ok tt) -> False).
+  { intros e Hh. apply handle_error_ok_adds in Hh. rewrite Hh in He.
+    rewrite <- (app_nil_r (e_errors s)) in He at 2. apply app_inv_head in He. discriminate. }
+  repeat match type of H3 with
+  | (if ?b then _ else _) _ = _ => destruct b
+  | (match ?x with Some _ => _ | None => _ end) _ = _ => destruct x
+  end;
+  try (exfalso; eapply Hno; exact H3); reflexivity.
+Qed.
+
 (* what Rule.parse did when it returned, for checking constraints and no `contains` *)
 Lemma rule_parse_inv o depth origin args ell vals mn mx v s s' w :
   checking_vals vals = true ->
@@ -561,15 +581,14 @@ Qed.
 
 
 (* ---- Rule.parse ---- *)
-Lemma rule_parse_fixed o depth origin args ell vals ct mn mx v s s' w :
-  throwing o -> stable (TRule origin args ell vals ct mn mx) = true ->
-  rule_parse re tr o depth origin args ell vals ct mn mx v s = (s', Ok w) ->
-  typed (TRule origin args ell vals ct mn mx) w = true ->
-  forall s2, clean s2 -> rule_parse re tr o depth origin args ell vals ct mn mx w s2 = (s2, Ok w).
+Lemma rule_parse_fixed_none o depth origin args ell vals mn mx v s s' w :
+  throwing o -> stable (TRule origin args ell vals None mn mx) = true ->
+  rule_parse re tr o depth origin args ell vals None mn mx v s = (s', Ok w) ->
+  typed (TRule origin args ell vals None mn mx) w = true ->
+  forall s2, clean s2 -> rule_parse re tr o depth origin args ell vals None mn mx w s2 = (s2, Ok w).
 Proof.
   intros Ho Hst H Hty s2 Hcl. cbn [stable] in Hst.
-  apply andb_prop in Hst. destruct Hst as [Hst Hshape]. apply andb_prop in Hst. destruct Hst as [Hck Hct].
-  destruct ct as [c|]; [discriminate Hct|]. clear Hct.
+  apply andb_prop in Hst. destruct Hst as [Hst Hshape]. apply andb_prop in Hst. destruct Hst as [Hck _].
   cbn [typed] in Hty.
   destruct (tuple_origin origin ell && negb (match args with [] => true | _ => false end)) eqn:Etup.
   { apply andb_prop in Etup. destruct Etup as [Eto Ene]. destruct (tuple_origin_inv _ _ Eto) as [-> ->].
@@ -692,6 +711,104 @@ Proof.
       apply Htail; exact Hch.
 Qed.
 
+(* ---- the same with a `contains` constraint: a successful parse is one without it plus a verdict that recorded nothing ---- *)
+Lemma rule_strip o depth origin args ell vals c mn mx v s s' w :
+  checking_vals vals = true ->
+  rule_parse re tr o depth origin args ell vals (Some c) mn mx v s = (s', Ok w) ->
+  rule_parse re tr o depth origin args ell vals None mn mx v s = (s', Ok w) /\
+  (w <> PNone -> forall s2, clean s2 -> forall x, rule_parse re tr o depth origin args ell vals None mn mx x s2 = (s2, Ok w) ->
+              rule_parse re tr o depth origin args ell vals (Some c) mn mx x s2 = (s2, Ok w)).
+Proof.
+  intros Hck H. unfold rule_parse in H.
+  apply mbind_ok in H. destruct H as (s1 & v1 & Hor & H).
+  (* what contains said about the final value, from the first run *)
+  assert (Hc : (exists ot, origin = Some ot /\ v1 = PNone /\ w = PNone /\ s' = s1) \/
+               (o_ignore_constraints o = true \/ forall sx, parse_contains tr o depth c mn mx w sx = (sx, Ok w))).
+  { destruct origin as [ot|]; [destruct v1|];
+      cbv iota beta in H;
+      try (right; apply mbind_ok in H; destruct H as (sa & v2 & _ & Ht);
+           apply mbind_ok in Ht; destruct Ht as (sb & v3 & Hv & Ht);
+           apply mbind_ok in Ht; destruct Ht as (sc & [] & Hr & Ht); injection Ht as <- <-;
+           apply raise_error_ok in Hr; destruct Hr as (-> & He & _);
+           destruct (o_ignore_constraints o); [left; reflexivity|right];
+           apply mbind_ok in Hv; destruct Hv as (sd & w0 & Hrv & Hcn);
+           pose proof (parse_contains_ok tr _ _ _ _ _ _ _ _ _ Hcn) as [-> G];
+           pose proof (grows_nil _ _ G He) as Hd;
+           destruct (parse_contains_again _ _ _ _ _ _ _ _ _ Hcn ltac:(congruence)) as [_ Hag]; exact Hag).
+    left. injection H as <- <-. eauto. }
+  split.
+  - (* without contains the same run succeeds with the same result *)
+    unfold rule_parse. unfold mbind at 1. rewrite Hor.
+    destruct origin as [ot|]; [destruct v1|]; cbv iota beta in H |- *;
+      try (apply mbind_ok in H; destruct H as (sa & v2 & Hap & Ht);
+           unfold mbind at 1; rewrite Hap;
+           apply mbind_ok in Ht; destruct Ht as (sb & v3 & Hv & Ht);
+           apply mbind_ok in Ht; destruct Ht as (sc & [] & Hr & Ht); injection Ht as <- <-;
+           pose proof Hr as Hr'; apply raise_error_ok in Hr'; destruct Hr' as (-> & He & _);
+           destruct (o_ignore_constraints o);
+           [ unfold mbind at 1; rewrite Hv; unfold mbind; rewrite Hr; reflexivity |];
+           apply mbind_ok in Hv; destruct Hv as (sd & w0 & Hrv & Hcn);
+           pose proof (parse_contains_ok tr _ _ _ _ _ _ _ _ _ Hcn) as [-> G];
+           pose proof (grows_nil _ _ G He) as Hd;
+           assert (Hsd : sd = sb) by
+             (destruct (parse_contains_again _ _ _ _ _ _ _ _ _ Hcn ltac:(congruence)) as [_ Hag];
+              rewrite (Hag sd) in Hcn; injection Hcn as <-; reflexivity);
+           subst sd;
+           unfold mbind at 1; unfold mbind at 1; rewrite Hrv; unfold ret at 1; unfold mbind; rewrite Hr; reflexivity).
+    exact H.
+  - (* with contains put back, on any input that gives w without it *)
+    intros Hnn s2 Hcl x Hx. unfold rule_parse in *.
+    apply mbind_ok in Hx. destruct Hx as (t1 & x1 & Hox & Hx). unfold mbind at 1. rewrite Hox.
+    destruct origin as [ot|]; [destruct x1|]; cbv iota beta in Hx |- *;
+      try (apply mbind_ok in Hx; destruct Hx as (ta & x2 & Hapx & Htx);
+           unfold mbind at 1; rewrite Hapx;
+           apply mbind_ok in Htx; destruct Htx as (tb & x3 & Hvx & Htx);
+           apply mbind_ok in Htx; destruct Htx as (tc & [] & Hrx & Htx); injection Htx as <- <-;
+           destruct (o_ignore_constraints o) eqn:Eig;
+           [ unfold mbind at 1; rewrite Hvx; unfold mbind; rewrite Hrx; reflexivity |];
+           apply mbind_ok in Hvx; destruct Hvx as (td & y0 & Hrvx & Hretx); injection Hretx as <- <-;
+           destruct Hc as [(ot' & Eo & _ & Ew & _)|[Hig|Hag]];
+           [ exfalso; apply Hnn; exact Ew | discriminate Hig | ];
+           unfold mbind at 1; unfold mbind at 1; rewrite Hrvx; rewrite (Hag td);
+           unfold mbind; rewrite Hrx; reflexivity).
+    exact Hx.
+Qed.
+
+Lemma stable_strip origin args ell vals c mn mx :
+  stable (TRule origin args ell vals (Some c) mn mx) = true ->
+  stable (TRule origin args ell vals None mn mx) = true /\ args <> [] /\ checking_vals vals = true.
+Proof.
+  cbn [stable]. intros H. apply andb_prop in H. destruct H as [H Hshape]. apply andb_prop in H. destruct H as [Hck Hct].
+  destruct args as [|a0 ar]; [discriminate Hct|].
+  split; [|split; [discriminate|exact Hck]].
+  rewrite Hck. cbn [andb]. exact Hshape.
+Qed.
+
+Lemma typed_not_none origin args ell vals ct mn mx w :
+  args <> [] -> stable (TRule origin args ell vals None mn mx) = true ->
+  typed (TRule origin args ell vals ct mn mx) w = true -> w <> PNone.
+Proof.
+  intros Hne Hst Hty ->. cbn [stable typed] in *.
+  apply andb_prop in Hst. destruct Hst as [_ Hshape].
+  destruct (tuple_origin origin ell && negb (match args with [] => true | _ => false end)); [discriminate Hty|].
+  destruct args as [|a [|b [|]]]; try contradiction; try discriminate Hshape.
+  - destruct origin as [[|p| | |]|]; try discriminate Hshape. destruct p; try discriminate Hshape; discriminate Hty.
+  - destruct origin as [[|p| | |]|]; try discriminate Hshape. destruct p; try discriminate Hshape; discriminate Hty.
+Qed.
+
+Lemma rule_parse_fixed o depth origin args ell vals ct mn mx v s s' w :
+  throwing o -> stable (TRule origin args ell vals ct mn mx) = true ->
+  rule_parse re tr o depth origin args ell vals ct mn mx v s = (s', Ok w) ->
+  typed (TRule origin args ell vals ct mn mx) w = true ->
+  forall s2, clean s2 -> rule_parse re tr o depth origin args ell vals ct mn mx w s2 = (s2, Ok w).
+Proof.
+  intros Ho Hst H Hty s2 Hcl. destruct ct as [c|]; [|eapply rule_parse_fixed_none; eassumption].
+  destruct (stable_strip _ _ _ _ _ _ _ Hst) as (Hst0 & Hne & Hck).
+  destruct (rule_strip _ _ _ _ _ _ _ _ _ _ _ _ _ Hck H) as [H0 Hback].
+  apply (Hback (typed_not_none _ _ _ _ _ _ _ _ Hne Hst0 Hty) s2 Hcl).
+  eapply rule_parse_fixed_none; eassumption.
+Qed.
+
 (* ---- logical types ---- *)
 Lemma raise_error_dirty s s' e x : e_errors s = e_errors s' ++ [e] -> raise_error s <> (x, Ok tt).
 Proof.
@@ -809,14 +926,13 @@ Proof.
   - eapply IH; eassumption.
 Qed.
 
-Lemma rule_parse_typed o depth origin args ell vals ct mn mx v s s' w :
-  throwing o -> stable (TRule origin args ell vals ct mn mx) = true ->
-  rule_parse re tr o depth origin args ell vals ct mn mx v s = (s', Ok w) ->
-  typed (TRule origin args ell vals ct mn mx) w = true.
+Lemma rule_parse_typed_none o depth origin args ell vals mn mx v s s' w :
+  throwing o -> stable (TRule origin args ell vals None mn mx) = true ->
+  rule_parse re tr o depth origin args ell vals None mn mx v s = (s', Ok w) ->
+  typed (TRule origin args ell vals None mn mx) w = true.
 Proof.
   intros Ho Hst H. cbn [stable] in Hst.
-  apply andb_prop in Hst. destruct Hst as [Hst Hshape]. apply andb_prop in Hst. destruct Hst as [Hck Hct].
-  destruct ct as [c|]; [discriminate Hct|]. clear Hct.
+  apply andb_prop in Hst. destruct Hst as [Hst Hshape]. apply andb_prop in Hst. destruct Hst as [Hck _].
   cbn [typed] in *.
   destruct (tuple_origin origin ell && negb (match args with [] => true | _ => false end)) eqn:Etup.
   { apply andb_prop in Etup. destruct Etup as [Eto Ene]. destruct (tuple_origin_inv _ _ Eto) as [-> ->].
@@ -871,6 +987,17 @@ Proof.
     apply andb_true_intro. split.
     + eapply enter_typed; [exact Ho|exact Hsk|exact Hk0].
     + eapply enter_typed; [exact Ho|exact Hsv|exact Hv0].
+Qed.
+
+Lemma rule_parse_typed o depth origin args ell vals ct mn mx v s s' w :
+  throwing o -> stable (TRule origin args ell vals ct mn mx) = true ->
+  rule_parse re tr o depth origin args ell vals ct mn mx v s = (s', Ok w) ->
+  typed (TRule origin args ell vals ct mn mx) w = true.
+Proof.
+  intros Ho Hst H. destruct ct as [c|]; [|eapply rule_parse_typed_none; eassumption].
+  destruct (stable_strip _ _ _ _ _ _ _ Hst) as (Hst0 & Hne & Hck).
+  destruct (rule_strip tr _ _ _ _ _ _ _ _ _ _ _ _ _ Hck H) as [H0 _].
+  exact (rule_parse_typed_none _ _ _ _ _ _ _ _ _ _ _ _ Ho Hst0 H0).
 Qed.
 
 (* ---- unions: a stage returns what one of the arguments returned for the input ---- *)
